@@ -285,7 +285,10 @@ def oracle_tlo(combs, g):
             continue
         e = es[0]
         if e["name"] != c["tag"]:
-            kind = "builtin-tag" if c["name"] in BUILTINS else "tag"
+            # F26 is ONLY: one of the five un-namespaced builtin wrappers (FULL name), schema tag not the canonical one,
+            # listed with exactly the hard-coded constant
+            f26 = c["name"] in BUILTINS and e["name"] == BUILTINS[c["name"]] and c["tag"] != BUILTINS[c["name"]]
+            kind = "F26:builtin-hardcoded" if f26 else "tag"
             bad.append((f"{kind}:{c['name']}", f"combinator {c['name']} has tag {c['tag']:#010x} but is listed with {e['name']:#010x}"))
         if c["fun"] and c["name"] not in fun_ids:
             bad.append((f"function-not-in-functions:{c['name']}", f"function {c['name']} is not in the functions section"))
@@ -326,8 +329,9 @@ def oracle_tlo(combs, g):
             if t["ptype"] != pt:
                 bad.append((f"type-params:{tn}", f"type {tn}: params_type {t['ptype']:#x}, constructor {c['name']} has kinds {pt:#x}"))
             e = by_id.get(c["name"], [None])[0]
-            if e is not None and e["type_name"] != t["name"]:
-                kind = "builtin-type-name" if c["name"] in BUILTINS else "ctor-type-name"
+            if e is not None and len(by_id.get(c["name"], [])) == 1 and e["type_name"] != t["name"]:
+                f26 = c["name"] in BUILTINS and e["type_name"] == BUILTINS[c["name"]] and c["tag"] != BUILTINS[c["name"]]
+                kind = "F26:builtin-hardcoded" if f26 else "ctor-type-name"
                 bad.append((f"{kind}:{c['name']}", f"constructor {c['name']}: type_name {e['type_name']:#010x} is not the id {t['name']:#010x} of its type {tn}"))
     for tn in tl:
         if tn not in ctors and tn not in ("#", "Type"):
@@ -353,7 +357,7 @@ tuple#9770768a {t:Type} {n:#} [t] = Tuple t n;
 """
 
 
-def rand_tlo_schema(rng, ntypes=8, noncanonical_builtin=False):
+def rand_tlo_schema(rng, ntypes=8, noncanonical_builtin=False, ns_primitives=True):
     """Random TL1 schema exercising what the TLO describes: many types of arity 0..4 with mixed parameter kinds,
     1..4 constructors per type, explicit / computed tags, namespaces, functions with modifiers."""
     lines = []
@@ -419,7 +423,34 @@ def rand_tlo_schema(rng, ntypes=8, noncanonical_builtin=False):
             res = " ".join([tname] + pnames)
             lines.append(f"{cname}{tag} {targs} {' '.join(fields)} = {res};".replace("  ", " "))
         decls.append((tname, kinds))
+    # namespaced constructors whose LOCAL name is, or starts with, a builtin name (GenerateTLO keys its builtin table by the
+    # full name: these are ordinary combinators)
+    prims = ["int", "long", "float", "double", "string"]
+    used = set()
+    if ns_primitives:
+        for _ in range(rng.choice([1, 2, 3])):
+            ns = rng.choice(["a.", "b.", "stats.", "long_ns."])
+            p = rng.choice(prims)
+            local = p + rng.choice(["", "", "", "Value", "2", "_x", "s"])
+            if (ns, local) in used:
+                continue
+            used.add((ns, local))
+            tn = f"{ns}{local[0].upper()}{local[1:]}"
+            tag = "#%08x" % rng.randrange(1, 1 << 32) if rng.random() < 0.3 else ""
+            if rng.random() < 0.7:
+                lines.append(f"{ns}{local}{tag} hi:int lo:{rng.choice(['int', 'string', 'long'])} = {tn};")
+            else:
+                lines.append(f"{ns}{local}{tag} = {tn}U;")
+                lines.append(f"{ns}{local}B x:{p} = {tn}U;")
     lines.append("---functions---")
+    if ns_primitives:
+        for _ in range(rng.choice([0, 1, 2])):
+            ns = rng.choice(["a.", "b.", "stats."])
+            local = rng.choice(prims) + rng.choice(["", "", "Get", "3"])
+            if (ns, "f" + local) in used or (ns, local) in used:
+                continue
+            used.add((ns, "f" + local))
+            lines.append(f"{rng.choice(['@read', '@write', '@any'])} {ns}{local} q:int = {rng.choice(['Int', 'Long', 'String'])};")
     for i in range(rng.choice([0, 1, 2, 3, 5])):
         ns = rng.choice(nss)
         mods = rng.sample(["@any", "@read", "@write", "@readwrite", "@internal", "@kphp"], rng.choice([0, 1, 1, 2, 3]))
@@ -587,3 +618,21 @@ class MigPkg:
             return False
         self.exe = exe
         return True
+
+
+NS_PRIMITIVE_LINES = """stats.long hi:int lo:int = stats.Long;
+a.int x:int = a.Int;
+b.string#0badc0de s:string = b.String;
+a.floatA = a.F;
+a.floatB x:float = a.F;
+long_ns.doubleValue d:double = long_ns.DoubleValue;
+"""
+NS_PRIMITIVE_FUNCS = """@read a.double x:int = Int;
+@write b.long = Long;
+@any stats.intGet q:stats.long = a.Int;
+"""
+
+
+def edge_ns_primitives_schema():
+    """fixed schema: namespaced constructors and functions whose local name is / starts with a builtin name"""
+    return TLO_HEADER + NS_PRIMITIVE_LINES + "---functions---\n" + NS_PRIMITIVE_FUNCS
